@@ -773,6 +773,14 @@ void SolveResultRegistry::AddSolveResults(
 
 void BasicSolver::UseOptionFile(const SolverOption &, fmt::StringRef value) {
   option_file_save_ = value;
+  struct NestingGuard {
+    int& n_;
+    NestingGuard(int& n) : n_(n) { ++n_; }
+    ~NestingGuard() { --n_; }
+  } guard(option_file_nesting_);
+  if (option_file_nesting_ > 16)     // e.g., a file naming itself
+    MP_RAISE(fmt::format("Option file '{}': "
+                         "option files nested too deeply", value));
   std::ifstream ifs(value);
   if (ifs.good())
     ProcessLines_AvoidComments(ifs,
